@@ -4,6 +4,10 @@
 //! model's reference evaluation (Model/Ndl.v `predict`, on the model's own parse of the text)
 //! predicts.
 //!
+//! Machines may be declared without a `name` (senders with or without count, receivers and forwarders
+//! that are then addressed by address only), before and after the named ones; names may be prefixes of
+//! each other ("n", "n1", "n10", "n-", "nn" with copies "nn-0", ...).
+//!
 //! case:   RUN <hex utf-8 text> <expected status by construction> <scenario tag>
 //! result: RUN Exited | RUN TimedOut | RUN Status(n) | RUN None (parse error)
 //!         | RUN CRASH(code) (the child panicked / exited) | RUN HANG (wall-clock limit)
@@ -112,7 +116,8 @@ fn gen_scenario(rng: &mut Rng) -> Scenario {
     let mut machines: Vec<Mach> = vec![];
     let mk = |rng: &mut Rng, name: &str, count: u64, first_net: usize, app: Args, machines: &mut Vec<Mach>| {
         let (p, auto) = protos(rng, arp);
-        let mut args = vec![kv("name", name)];
+        // an empty name stands for a machine declared without a `name` argument
+        let mut args = if name.is_empty() { vec![] } else { vec![kv("name", name)] };
         if count > 1 || rng.coin(1, 5) {
             args.push(kv("count", &count.to_string()));
         }
@@ -165,6 +170,12 @@ fn gen_scenario(rng: &mut Rng) -> Scenario {
     }
 
     // ---- message / forward / capture family
+    // names: the plain scheme, or names that are prefixes of each other (and of the "-i" copies of a
+    // counted machine); receivers / forwarders / senders may also be declared without a name
+    let prefix_names = rng.coin(1, 3);
+    let rname = |j: usize| if prefix_names { ["n", "n1", "n10"][j].to_string() } else { format!("recv{}", j) };
+    let fname = |j: usize| if prefix_names { ["n-", "n1-x"][j].to_string() } else { format!("fwd{}", j) };
+    let sname = |j: usize| if prefix_names { ["nn", "n0", "n100", "n1-", "nnn"][j].to_string() } else { format!("send{}", j) };
     let n_recv = rng.range(1, 3) as usize;
     let n_fwd = rng.range(0, 2) as usize;
     let n_send = rng.range(n_recv as u64, n_recv as u64 + 2) as usize;
@@ -174,7 +185,8 @@ fn gen_scenario(rng: &mut Rng) -> Scenario {
         let net = rng.below(n_nets as u64) as usize;
         let ip = format!("45.{}.7.{}", net, 10 + j);
         nets[net].1.push(ip.clone());
-        recv.push((format!("recv{}", j), net, ip, *rng.pick(&[0xbeefu16, 0xface, 1234, 65535, 1])));
+        let name = if rng.coin(1, 5) { String::new() } else { rname(j) };
+        recv.push((name, net, ip, *rng.pick(&[0xbeefu16, 0xface, 1234, 65535, 1])));
     }
     // forwarders: (name, net, ip, local port, target index: <n_recv receiver, else forwarder)
     let mut fwd: Vec<(String, usize, String, u16, usize)> = vec![];
@@ -183,7 +195,8 @@ fn gen_scenario(rng: &mut Rng) -> Scenario {
         let net = if target < n_recv { recv[target].1 } else { fwd[target - n_recv].1 };
         let ip = format!("45.{}.7.{}", net, 40 + j);
         nets[net].1.push(ip.clone());
-        fwd.push((format!("fwd{}", j), net, ip, *rng.pick(&[0xbeefu16, 0x1000, 4321]), target));
+        let name = if rng.coin(1, 5) { String::new() } else { fname(j) };
+        fwd.push((name, net, ip, *rng.pick(&[0xbeefu16, 0x1000, 4321]), target));
     }
     // final receiver of a target index
     let final_of = |mut t: usize| -> usize {
@@ -220,7 +233,7 @@ fn gen_scenario(rng: &mut Rng) -> Scenario {
         let mut app = vec![
             kv("name", "send_message"),
             kv("message", &msg),
-            kv("to", if rng.coin(1, 2) { &tname } else { &tip }),
+            kv("to", if !tname.is_empty() && rng.coin(2, 3) { &tname } else { &tip }),
             kv("port", &port_text(rng, tport)),
         ];
         if count == 1 && rng.coin(1, 4) {
@@ -230,7 +243,8 @@ fn gen_scenario(rng: &mut Rng) -> Scenario {
             app.push(kv("ip", &ip));
         }
         let mut tmp = vec![];
-        mk(rng, &format!("send{}", j), count, tnet, app, &mut tmp);
+        let name = if rng.coin(1, 2) { String::new() } else { sname(j) };
+        mk(rng, &name, count, tnet, app, &mut tmp);
         senders.push(tmp.pop().unwrap());
     }
     // captures
@@ -272,7 +286,7 @@ fn gen_scenario(rng: &mut Rng) -> Scenario {
         let app = vec![
             kv("name", "forward"),
             kv("ip", &f.2),
-            kv("to", if rng.coin(1, 2) { &tname } else { &tip }),
+            kv("to", if !tname.is_empty() && rng.coin(2, 3) { &tname } else { &tip }),
             kv("local_port", &port_text(rng, f.3)),
             kv("remote_port", &port_text(rng, tport)),
         ];
@@ -286,6 +300,13 @@ fn gen_scenario(rng: &mut Rng) -> Scenario {
         let j = rng.below(i as u64 + 1) as usize;
         all.swap(i, j);
     }
+    // unnamed machines all before, or all after, the named ones in half of the scenarios
+    let unnamed = |m: &Mach| !m.args.iter().any(|(k, _)| k == "name");
+    match rng.below(4) {
+        0 => all.sort_by_key(|m| !unnamed(m)),
+        1 => all.sort_by_key(|m| unnamed(m)),
+        _ => {}
+    }
     machines.extend(all);
     // without a factory and with one receiver only: a negative case needs that receiver to be the negative one
     let expect = if negative { "TimedOut" } else { "Exited" };
@@ -294,9 +315,10 @@ fn gen_scenario(rng: &mut Rng) -> Scenario {
         machines,
         expect,
         tag: format!(
-            "msg_r{}_f{}{}{}",
+            "msg_r{}_f{}{}{}{}",
             n_recv,
             n_fwd,
+            if prefix_names { "_pfx" } else { "" },
             if arp { "_arp" } else { "" },
             if negative { "_neg" } else { "" }
         ),
@@ -497,11 +519,27 @@ impl Family for Run {
         if text.contains("-255'") {
             stat("range_to_255");
         }
-        if text.contains("to='45.") {
-            stat("wired_by_address");
+        for part in text.split("to='").skip(1) {
+            stat(if part.starts_with("45.") || part.starts_with("12") { "wired_by_address" } else { "wired_by_name" });
         }
-        if text.contains("to='recv") || text.contains("to='fwd") || text.contains("to='p") {
-            stat("wired_by_name");
+        // machines without a name, by role and position relative to named machines
+        let mlines: Vec<&str> = text.lines().filter(|l| l.trim_start().starts_with("[Machine ") || l.trim() == "[Machine]").collect();
+        let mut seen_named = false;
+        for (i, l) in mlines.iter().enumerate() {
+            if l.contains(" name='") {
+                seen_named = true;
+            } else {
+                stat("machine_unnamed");
+                if l.contains("count='") && !l.contains("count='1'") {
+                    stat("machine_unnamed_counted");
+                }
+                if seen_named {
+                    stat("machine_unnamed_after_named");
+                }
+                if mlines[i + 1..].iter().any(|x| x.contains(" name='")) {
+                    stat("machine_unnamed_before_named");
+                }
+            }
         }
         let got = run_child(&text);
         stat(&format!("status_{}", got.split('(').next().unwrap_or("?")));
